@@ -208,6 +208,8 @@ type Config struct {
 	// Extra runs after the exploration in the parent (e.g. sequential sub-checks); it
 	// may add to the coverage and report violations.
 	Extra func(tier string, rep *evidence.Reporter, cov *evidence.Coverage)
+	// QuickBudget / ThoroughBudget: time budget of the tier in seconds (0: 240 / 1500).
+	QuickBudget, ThoroughBudget int
 	// ExtraReplay replays a violation reported by Extra (scenario name, choice list);
 	// it returns the exit code or -1 if the scenario is not one of Extra's.
 	ExtraReplay func(scenario string, choices []int, path string) int
@@ -279,8 +281,14 @@ func Main(cfg *Config) {
 	}
 	if *budget == 0 {
 		*budget = 240
+		if cfg.QuickBudget > 0 {
+			*budget = cfg.QuickBudget
+		}
 		if *tier == "thorough" {
 			*budget = 1500
+			if cfg.ThoroughBudget > 0 {
+				*budget = cfg.ThoroughBudget
+			}
 		}
 	}
 	if *nworkers == 0 {
